@@ -31,8 +31,9 @@ def gc_obls(prefix):
     out = []
     out.append(_gc(prefix, 2))
     out.append(_gc(prefix, 5))
-    out.append(_gc(prefix, 3, twice=1))
+    out.append(_gc(prefix, 2, twice=1))
     out.append(_gc(prefix, 0, tier="thorough"))
+    out.append(_gc(prefix, 3, twice=1, tier="thorough"))
     out.append(_gc(prefix, 5, twice=1, tier="thorough"))
     out.append(_gc(prefix, 6, live=4, pend=3, tier="thorough", timeout=1800))
     return out
@@ -64,6 +65,7 @@ def _flush(prefix, mode, envgc, n=4, live=2, pend=1, tier="quick", timeout=600):
 
 
 def flush_obls(prefix):
-    return [_flush(prefix, 0, 0), _flush(prefix, 0, 1), _flush(prefix, 1, 0),
+    return [_flush(prefix, 0, 0), _flush(prefix, 0, 1, n=2, live=1, pend=1), _flush(prefix, 1, 0),
+            _flush(prefix, 0, 1, tier="thorough"),
             _flush(prefix, 1, 1, tier="thorough"),
             _flush(prefix, 1, 0, n=6, live=3, pend=2, tier="thorough", timeout=1800)]
